@@ -3,6 +3,7 @@
 # prints one line per change.  Applies each patch to /repo and undoes it straight afterwards; /repo must be clean.
 # usage: tools/run_seeded.sh [name-prefix]
 cd /verif
+export VERIF_EVIDENCE_DIR=/verif/.work/mutant-evidence
 if [ -n "$(git -C /repo status --porcelain)" ]; then echo "/repo is not clean"; exit 9; fi
 mkdir -p .work/seeded-runs
 for d in seeded/${1:-}*/; do
